@@ -208,6 +208,54 @@ def check_dialect(ctx, d):
                    f'grouped by the rules of the single-word operators (`a IS (NOT NULL)`)', file=g.lexer.file if hasattr(g.lexer, 'file') else g.file,
                    witness=f'select a {text} b')
     ctx.count('compound_operator_tokens', ncomp)
+    # (1c) the words of such an operator can also arrive as TWO tokens (a comment between them is not white space for the token's pattern).  If the grammar accepts
+    # that sequence at all, the tree it builds must be the one of the compound operator: `a IS /* c */ NOT NULL` is `a IS NOT NULL`, not `a IS (NOT NULL)`
+    from ..lalr import lr_parse
+    from ..interp import Interp, Obj, Raised, Env
+    from ..grammar import prod_record
+    ast_files = tuple(sorted(f for f in ctx.src.py_files('mindsdb_sql/parser') if '/ast/' in f))
+    isa_ = {'UnaryOperation': {'Operation', 'ASTNode'}, 'BinaryOperation': {'Operation', 'ASTNode'}, 'BetweenOperation': {'Operation', 'ASTNode'},
+            'Identifier': {'ASTNode'}, 'Constant': {'ASTNode'}, 'NullConstant': {'Constant', 'ASTNode'}, 'Tuple': {'ASTNode'}}
+    for tok in sorted(set(used) | set(infix)):
+        sp = spelling(g.lexer, tok)
+        if not sp or len(sp.split()) != 2:
+            continue
+        w1, w2 = sp.split()
+        t1, t2 = master.types(w1), master.types(w2)
+        if not (t1 and t2 and len(t1) == 1 and len(t2) == 1):
+            continue
+        t1, t2 = t1[0], t2[0]
+        ok_seq, reds = lr_parse(t, ['SELECT', 'ID', t1, t2, 'ID'])
+        cons = f'{d}:{tok}:as two tokens {t1} {t2}'
+        if not ok_seq:
+            ctx.ob('C03.compound-operator-token', cons, True)
+            continue
+        q1 = next((q for q in P[1:] if q.rhs == ('expr', t1, 'expr')), None)
+        q2 = next((q for q in P[1:] if q.rhs == (t2, 'expr')), None)
+        qt = next((q for q in P[1:] if q.rhs == ('expr', tok, 'expr')), None)
+        if q1 is None or q2 is None or qt is None or q1.func is None or q2.func is None or qt.func is None:
+            raise AnalysisError(f'{d}: the sequence {t1} {t2} is accepted but the productions that read it are not `expr {t1} expr` / `{t2} expr` (unmodelled)')
+
+        def col(name):
+            return Obj('Identifier', parts=[name], alias=None, parentheses=False)
+
+        def act(q, values):
+            return Interp.for_file(ctx.src, g.file, isa_, {}, also=ast_files).call_function(q.func, [Obj('Parser'), prod_record(q, values)], {}, Env())
+        a_, b_ = col('a'), col('b')
+        try:
+            inner = act(q2, [w2, b_])
+            got = act(q1, [a_, w1, inner])
+            ref = act(qt, [a_, sp, b_])
+            def sig(n):
+                return (n.kind, ' '.join(str(n.attrs.get('op', '')).lower().split()), [x is a_ or x is b_ for x in (n.attrs.get('args') or [])], len(n.attrs.get('args') or []))
+            same = isinstance(got, Obj) and isinstance(ref, Obj) and sig(got) == sig(ref) and list(got.attrs.get('args'))[1] is b_
+            shown = f'{got!r:.90}'
+        except Raised as r:
+            same, shown = r.exc_name == 'ParsingException', f'<{r.exc_name}>'
+        ctx.ob('C03.compound-operator-token', cons, same,
+               f'{d}: `a {w1} /* comment */ {w2} b` is lexed as the two tokens {t1} {t2} and accepted; the actions build {shown} instead of the `{sp}` operation over a and b: '
+               f'the operator is applied to `{w2} b` (a IS (NOT NULL) is a IS NULL - the opposite of what is written)', file=g.file, line=q1.line,
+               witness=f'select a {w1} /* c */ {w2} null')
     # (2) the grouping obligations
     nops = 0
     matrix = {}
@@ -445,7 +493,7 @@ def run(ctx):
         'has a precedence level; BETWEEN..AND shifts its AND and wins its reduce/reduce conflict; sly\'s own conflict '
         'resolver in sly/yacc.py is abstracted to a truth table and compared with the yacc rule the table builder '
         'implements. NOT decided: that evaluating the tree equals a reference engine (needs execution); '
-        'parenthesis keeping is decided under C01.paren-kept.')
+        'parenthesis keeping: C01.paren-kept, re-run here for the expression productions.')
     ctx.not_decided = ['evaluation equivalence with a reference SQL engine',
                        'operators outside the statement list (||, ~, ->, ::) - listed only']
     ctx.assumptions = ["sly's run-time driver Parser.parse implements the LR shift/reduce loop on these tables",
@@ -453,6 +501,18 @@ def run(ctx):
     for d in DIALECTS:
         check_dialect(ctx, d)
     check_sly_resolver(ctx)
+    # user-written parentheses override the table: the `( expr )` actions keep the mark on whatever operation is inside (C01's interpreted rule, re-run here)
+    from . import C01
+    from ..core import Ctx as _Ctx
+    from ..pymodel import model_for
+    sub = _Ctx('C01', ctx.src, ctx.tier)
+    C01.check_parens(sub, model_for(ctx.src))
+    ctx.setcount('paren_rows', len(sub.constructs))
+    ctx.floor('paren_rows', 6)
+    ctx.ob('C03.parentheses-kept', 'all', True, '')
+    for f_ in sub.findings:
+        if ':expr -> ' in f_.construct or 'expr' in f_.construct.split(':')[1][:6]:
+            ctx.ob('C03.parentheses-kept', f_.construct, False, f_.msg, file=f_.file, line=f_.line, witness='select (not a) = b')
     ctx.floor('quadruples', 600)
     ctx.floor('operator_productions', 3 * 20)
     ctx.floor('between_states', 3)
